@@ -108,6 +108,24 @@ class _Global(ast.NodeTransformer):
             else:
                 res.append(st)
             i += 1
+        # G8: `for T in I: if C: return <b>` directly followed by `return <not b>` -> `return any/all(... for T in I)`
+        for i in range(len(res) - 1):
+            lp, nxt = res[i], res[i + 1]
+            if isinstance(lp, ast.For) and not lp.orelse and len(lp.body) == 1 and isinstance(lp.body[0], ast.If) and not lp.body[0].orelse \
+                    and len(lp.body[0].body) == 1 and isinstance(lp.body[0].body[0], ast.Return) and isinstance(nxt, ast.Return) \
+                    and isinstance(lp.body[0].body[0].value, ast.Constant) and isinstance(nxt.value, ast.Constant) \
+                    and isinstance(lp.body[0].body[0].value.value, bool) and isinstance(nxt.value.value, bool) \
+                    and lp.body[0].body[0].value.value is not nxt.value.value:
+                found = lp.body[0].body[0].value.value
+                test = lp.body[0].test
+                if found:  # any
+                    elt, fn = test, "any"
+                else:  # all(not C)
+                    elt = test.operand if isinstance(test, ast.UnaryOp) and isinstance(test.op, ast.Not) else ast.UnaryOp(op=ast.Not(), operand=test)
+                    fn = "all"
+                gen = ast.GeneratorExp(elt=elt, generators=[ast.comprehension(target=lp.target, iter=lp.iter, ifs=[], is_async=0)])
+                ret = ast.copy_location(ast.Return(value=ast.Call(func=ast.Name(id=fn, ctx=ast.Load()), args=[gen], keywords=[])), lp)
+                return res[:i] + [ret] + res[i + 2:]
         return res
 
     def _g5(self, rest: list[ast.stmt]) -> list[ast.stmt]:
@@ -528,6 +546,35 @@ def _recover_renames(fn: ast.FunctionDef, ref_locals: list[str], log: list[str])
     log.append("renamed back: " + ", ".join(f"{a}->{b}" for a, b in mapping.items()))
 
 
+def _recover_renames_by_position(fn: ast.FunctionDef, ref_locals: list[str], log: list[str]) -> None:
+    """R3a (in place, before R2): between two consecutive locals that both lists share, a run of new names of the same length as
+    the run of vanished reference names is a rename"""
+    cur = local_names(fn)
+    common = [n for n in cur if n in ref_locals]
+    if common != [n for n in ref_locals if n in cur]:
+        return
+
+    def runs(names, keep):
+        out, run = [], []
+        for n in names:
+            if n in keep:
+                out.append(run)
+                run = []
+            else:
+                run.append(n)
+        out.append(run)
+        return out
+
+    keep = set(common)
+    mapping = {}
+    for a, b in zip(runs(cur, keep), runs(ref_locals, keep)):
+        if a and len(a) == len(b):
+            mapping.update(zip(a, b))
+    if mapping:
+        _Rename(mapping).visit(fn)
+        log.append("renamed back (by position): " + ", ".join(f"{a}->{b}" for a, b in mapping.items()))
+
+
 # ------------------------------------------------------------------------------------------------ inlining
 def _param_map(callee: ast.FunctionDef, call: ast.Call, skip_first: bool) -> dict[str, ast.AST] | None:
     a = callee.args
@@ -794,7 +841,11 @@ def normalize_module(tree: ast.Module, modname: str, log: list[str] | None = Non
     for q, f, c, b in _functions(tree, modname):
         if q in ref:
             rl = ref[q]["locals"]
+            _recover_renames_by_position(f, rl, log)
             _propagate_new_locals(f, rl, log)
             _recover_renames(f, rl, log)
     tree = _Global().visit(tree)
+    # G9: canonical spelling of equivalent idioms (sa.astx._Idioms) on every expression of the module
+    from sa.astx import _Idioms
+    tree = _Idioms().visit(tree)
     return _fix(tree)
